@@ -54,6 +54,8 @@ def run(ctx):
         if m == 1:
             predict(ctx, util, rng, n, reps)
             factorizations(ctx, util, rng, n, reps)
+        if m == 2 and n >= 2:
+            structured(ctx, util, rng, n, max(8, reps // 10))
         if m <= n + 1:
             correct(ctx, util, rng, n, m, reps)
     if ctx.shard == ctx.nshards - 1 or ctx.nshards == 1:
@@ -169,6 +171,124 @@ def factorizations(ctx, util, rng, n, reps):
         ctx.check_array(short + "_unit_triangular", site, eU, 1e-12, {"P": X})
         ctx.check_array(short + "_diagonal_D", site, eD, 0.0, {"P": X})
         ctx.distinct(X)
+
+
+def patterns(rng, n):
+    """named symmetric sparsity patterns with a full diagonal (numpy bool masks)"""
+    I = np.eye(n, dtype=bool)
+    out = {"diagonal": I.copy()}
+    a = I.copy(); a[0, :] = True; a[:, 0] = True
+    out["arrow_first"] = a
+    a = I.copy(); a[-1, :] = True; a[:, -1] = True
+    out["arrow_last"] = a
+    t = I.copy()
+    for i in range(n - 1):
+        t[i, i + 1] = t[i + 1, i] = True
+    out["tridiagonal"] = t
+    b = I.copy(); h = max(1, n // 2); b[:h, :h] = True; b[h:, h:] = True
+    out["block_diagonal"] = b
+    r = rng.random((n, n)) < 0.35
+    out["random"] = I | r | r.T
+    return out
+
+
+def spd_with_pattern(rng, mask):
+    n = mask.shape[0]
+    A = rng.normal(size=(n, n)); A = (A + A.T) / 2 * mask
+    A[np.diag_indices(n)] = np.abs(A).sum(axis=1) + rng.uniform(0.1, 2.0, n)  # strictly diagonally dominant -> SPD
+    return A * float(rng.choice([1e-6, 1.0, 1.0, 1e3]))
+
+
+def sx_with(name, mask):
+    sp = ca.DM(mask.astype(float)).sparsity()
+    sp = ca.project(ca.DM(mask.astype(float)), ca.DM(mask.astype(float)).sparsity()).sparsity()
+    sp = ca.sparsify(ca.DM(mask.astype(float))).sparsity()
+    return ca.SX.sym(name, sp), sp
+
+
+def structured(ctx, util, rng, n, reps):
+    """the same identities for arguments that are *structurally* sparse SX matrices (the way the attitude filters call
+    these functions: diagonal Q, F without diagonal, selection-row H), where fill-in matters, and for sequences of calls
+    at one size with different structures (a result must depend on the arguments of this call only)."""
+    site = "n=%d" % n
+    pats = patterns(rng, n)
+    # --- factorizations of structurally sparse SPD matrices
+    for name in ("ldl_symmetric_decomposition", "udu_symmetric_decomposition"):
+        short = name.split("_")[0]
+        for pn, mask in pats.items():
+            P, sp = sx_with("P", mask)
+            out = lib_call(ctx, name, site + "," + pn, lambda: getattr(util, name)(P), not_implemented_ok=False)
+            if out is None:
+                continue
+            f = ca.Function("f", [P], [ca.densify(o) for o in out])
+            eR, eU, inputs = [], [], []
+            for _ in range(reps):
+                Pn = spd_with_pattern(rng, mask)
+                T, D = [np.array(o) for o in f(ca.project(ca.DM(Pn), sp))]
+                fin = np.isfinite(T).all() and np.isfinite(D).all()
+                eR.append(np.abs(T @ D @ T.T - Pn).max() / np.abs(Pn).max() if fin else np.inf)
+                tri = np.triu(T, 1) if short == "ldl" else np.tril(T, -1)
+                eU.append(max(np.abs(tri).max(), np.abs(np.diag(T) - 1).max(), np.abs(D - np.diag(np.diag(D))).max()) if fin else np.inf)
+                inputs.append(Pn.ravel())
+            ctx.check_array(short + "_reconstructs_sparse", site + "," + pn, eR, 1e-9, {"P": np.array(inputs)})
+            ctx.check_array(short + "_unit_triangular_sparse", site + "," + pn, eU, 1e-12, {"P": np.array(inputs)})
+    # --- predict / correct: call sequences with different structures at the same size
+    lowm = np.tril(np.ones((n, n), bool))
+    full = np.ones((n, n), bool)
+    offd = ~np.eye(n, dtype=bool)
+    structures = [("sparse", np.eye(n, dtype=bool), offd, np.eye(n, dtype=bool)), ("dense", lowm, full, full),
+                  ("mixed", lowm, pats["tridiagonal"], np.eye(n, dtype=bool)), ("dense2", lowm, full, pats["arrow_first"])]
+    order = [structures[i] for i in rng.permutation(len(structures))] + [structures[1], structures[0], structures[1]]
+    for step, (sn, mw, mf, mq) in enumerate(order):
+        W, spw = sx_with("W", mw)
+        F, spf = sx_with("F", mf)
+        Q, spq = sx_with("Q", mq)
+        out = lib_call(ctx, "sqrt_covariance_predict", site + "," + sn, lambda: util.sqrt_covariance_predict(W, F, Q), not_implemented_ok=False)
+        if out is None:
+            continue
+        f = ca.Function("p", [W, F, Q], [ca.densify(out)])
+        errs, inputs = [], []
+        for _ in range(max(3, reps // 4)):
+            Wn = rand_lower(rng, n, cond_max=1e3) * mw
+            Wn[np.diag_indices(n)] = np.where(np.diag(Wn) == 0, 1.0, np.diag(Wn))
+            Fn = rng.normal(size=(n, n)) * mf
+            A = rng.normal(size=(n, n))
+            Qn = (A @ A.T) * mq if not mq.all() else A @ A.T
+            if not mq.all():
+                Qn = np.diag(np.abs(np.diag(Qn))) + (Qn - np.diag(np.diag(Qn))) * 0.01  # keep it PSD-ish; symmetric by construction
+            Wd = np.array(f(ca.project(ca.DM(Wn), spw), ca.project(ca.DM(Fn), spf), ca.project(ca.DM(Qn), spq)))
+            Pm = Wn @ Wn.T
+            rhs = Fn @ Pm + Pm @ Fn.T + Qn
+            lhs = Wd @ Wn.T + Wn @ Wd.T
+            sc = max(1e-300, np.abs(rhs).max(), np.abs(Wd).max() * np.abs(Wn).max())
+            errs.append(np.abs(lhs - rhs).max() / (sc * max(1.0, np.linalg.cond(Wn) * 1e-3)) if np.isfinite(Wd).all() else np.inf)
+            inputs.append(np.concatenate([Wn.ravel(), Fn.ravel(), Qn.ravel()]))
+        ctx.check_array("predict_lyapunov_identity_call_sequence", site + "," + sn, errs, 1e-9, {"W_F_Q": np.array(inputs), "position_in_sequence": np.full(len(errs), step)})
+    m = min(2, n)
+    seq = [("selection", np.eye(m, n, dtype=bool), np.eye(m, dtype=bool), np.eye(n, dtype=bool)), ("dense", np.ones((m, n), bool), np.tril(np.ones((m, m), bool)), lowm)]
+    for step, (sn, mh, mr, mw) in enumerate(seq + seq[::-1]):
+        H, sph = sx_with("H", mh)
+        Rs, spr = sx_with("Rs", mr)
+        W, spw = sx_with("W", mw)
+        out = lib_call(ctx, "sqrt_correct", site + "," + sn, lambda: util.sqrt_correct(Rs, H, W), not_implemented_ok=False)
+        if out is None:
+            continue
+        f = ca.Function("c", [Rs, H, W], [ca.densify(o) for o in out])
+        eP, inputs = [], []
+        for _ in range(max(3, reps // 4)):
+            Wn = rand_lower(rng, n, cond_max=1e3) * mw
+            Hn = rng.normal(size=(m, n)) * mh
+            Rn = rand_lower(rng, m, cond_max=1e2) * mr
+            Wp, K, Ss = [np.array(o) for o in f(ca.project(ca.DM(Rn), spr), ca.project(ca.DM(Hn), sph), ca.project(ca.DM(Wn), spw))]
+            Pm = Wn @ Wn.T
+            S = Hn @ Pm @ Hn.T + Rn @ Rn.T
+            Kref = Pm @ Hn.T @ np.linalg.inv(S)
+            Ppost = (np.eye(n) - Kref @ Hn) @ Pm
+            c = max(1.0, np.linalg.cond(S) * 1e-4)
+            fin = np.isfinite(Wp).all() and np.isfinite(K).all()
+            eP.append(max(np.abs(Wp @ Wp.T - Ppost).max() / (max(1e-300, np.abs(Pm).max()) * c), np.abs(K - Kref).max() / (max(1.0, np.abs(Kref).max()) * c)) if fin else np.inf)
+            inputs.append(np.concatenate([Rn.ravel(), Hn.ravel(), Wn.ravel()]))
+        ctx.check_array("correct_posterior_and_gain_call_sequence", site + "," + sn, eP, 1e-9, {"Rs_H_W": np.array(inputs), "position_in_sequence": np.full(len(eP), step)})
 
 
 def rk4(ctx, util, rng, reps):
